@@ -929,7 +929,7 @@ def rule_literal_base(chk, prog, tier):
         for suf in ('', 'u', 'UL', 'll'):
             CASES.append((digits + suf, ('int', base, off, int(base == 10), suf)))
     for lit, ty in (('1.5', 'double'), ('1e5', 'double'), ('1E5', 'double'), ('.5', 'double'), ('0.5', 'double'), ('0e1', 'double'), ('00.5', 'double'), ('1.', 'double'),
-                    ('1.5f', 'float'), ('1.5F', 'float'), ('1e5f', 'float'), ('1.5l', 'ldouble'), ('1.5L', 'ldouble'), ('0x1p3', 'double'), ('0x1.8P1', 'double'),
+                    ('1.5f', 'float'), ('1.5F', 'float'), ('1e5f', 'float'), ('0.1f', 'float'), ('16777217.0f', 'float'), ('0.1', 'double'), ('3.3e38f', 'float'), ('1.5l', 'ldouble'), ('1.5L', 'ldouble'), ('0x1p3', 'double'), ('0x1.8P1', 'double'),
                     ('0x.8p0f', 'float'), ('0X1P-2L', 'ldouble')):
         CASES.append((lit, ('flt', ty)))
     for lit in ('1.5x', '1.5fl', '1.5ff', '0x1p3q'):
@@ -969,7 +969,10 @@ def rule_literal_base(chk, prog, tier):
                 n = pyfloatend(lit)
                 i2.assign(endp.obj, endp.path, i2.padd(src, n), None)
                 i2.event('strtod', n)
-                return 1.0
+                try:
+                    return float.fromhex(lit[:n]) if lit[:2].lower() == '0x' else float(lit[:n])
+                except ValueError:
+                    return 1.0
             def inttype(i2, a, e):
                 i2.event('inttype', a[0], a[1], bytes(read_cstr(i2, a[2])).decode())
                 return w.t('int')
@@ -979,7 +982,8 @@ def rule_literal_base(chk, prog, tier):
                               'fatal': lambda i2, a, e: (_ for _ in ()).throw(Terminal('fatal', cmodel.fmt_of(i2, a, 0)))})
             e_ = it.call(fn, [Ptr(Obj('scope', 'heap'), ())])
             u = {n: w.t(n) for n in ('int', 'float', 'double', 'ldouble')}
-            return name_of_type(u, it.load(e_.obj, e_.path + ('type',))), [x for x in it.events if x[0] in ('strtoull', 'strtod', 'inttype')]
+            fv = e_.obj.f.get(('u', 'constant', 'f'))
+            return name_of_type(u, it.load(e_.obj, e_.path + ('type',))), [x for x in it.events if x[0] in ('strtoull', 'strtod', 'inttype')], fv
         runs = explore(prog, runner, {}, max_runs=4, on_unsupported='keep')
         if len(runs) != 1 or runs[0].outcome == 'unsupported':
             raise AnalysisBroken('primaryexpr(%s): %s' % (lit, runs[0].detail if runs else 'no run'))
@@ -990,10 +994,14 @@ def rule_literal_base(chk, prog, tier):
             r.instance(run.outcome == 'terminal:error', key, where, 'malformed floating suffix must be diagnosed, got %s' % (run.value if run.outcome == 'return' else run.outcome,)); continue
         if run.outcome != 'return':
             r.instance(False, key, where, 'valid constant rejected: %s %s' % (run.outcome, run.detail)); continue
-        tname, evs = run.value
+        tname, evs, fv = run.value
         if want[0] == 'flt':
-            ok = tname == want[1] and [x[0] for x in evs] == ['strtod']
-            r.instance(ok, key, where, 'expected a floating constant of type %s; got type %s via %s' % (want[1], tname, evs))
+            import struct as _st
+            n_ = pyfloatend(lit)
+            exact = float.fromhex(lit[:n_]) if lit[:2].lower() == '0x' else float(lit[:n_])
+            wantv = _st.unpack('<f', _st.pack('<f', exact))[0] if want[1] == 'float' else exact      # a float constant has a float value (6.4.4.2p5)
+            ok = tname == want[1] and [x[0] for x in evs] == ['strtod'] and (want[1] == 'ldouble' or fv == wantv)
+            r.instance(ok, key, where, 'expected a floating constant of type %s and value %r; got type %s value %r via %s' % (want[1], wantv, tname, fv, evs))
         else:
             _, base, off, dec, suf = want
             digits = lit[:len(lit) - len(suf)] if suf else lit
